@@ -913,6 +913,13 @@ where
                         label: label.to_string(),
                     })?;
 
+                // A shifted commitment without a degree bound (or a bound without one) would
+                // shift the positions at which the combined commitments are read back below.
+                if cur_poly.degree_bound().is_some() != cur_comm.commitment().shifted_comm.is_some()
+                {
+                    return Err(Error::InvalidCommitment);
+                }
+
                 if num_polys == 1 && cur_poly.degree_bound().is_some() {
                     assert!(
                         coeff.is_one(),
@@ -1018,6 +1025,14 @@ where
                     let &cur_comm = label_comm_map.get(label).ok_or(Error::MissingPolynomial {
                         label: label.to_string(),
                     })?;
+
+                    // A shifted commitment without a degree bound (or a bound without one) would
+                    // shift the positions at which the combined commitments are read back below.
+                    if cur_comm.degree_bound().is_some()
+                        != cur_comm.commitment().shifted_comm.is_some()
+                    {
+                        return Err(Error::InvalidCommitment);
+                    }
 
                     if num_polys == 1 && cur_comm.degree_bound().is_some() {
                         assert!(
